@@ -12,7 +12,8 @@ RULE = ('cases = sequences of 1-8 steps (built-in field/row/resource steps and r
         '(crossing the 100-row inference sample); each case runs lazily, step by step on materialised deep copies, regrouped into '
         'nested Flows at random split points and wrapped in always-true conditionals, and through results()/process()/datastream(); '
         'plus links Flow cannot interpret at every nesting depth; non-trivial = at least two steps and a row-changing step; '
-        'distinct = distinct case digest')
+        'distinct = distinct case digest'
+        '; round 4: sources optionally carry a column that is null throughout the 100-row inference sample and typed later (stepwise run fed lists, chained run fed generators)')
 TRUSTED = ['Coq 8.16.1 kernel + vm_compute', 'harness/p01.py step builders and oracle',
            'Python generator laziness is modelled as function composition on event lists (validated by the trace correspondence of C04-C06)']
 ASSUMES = ['steps are deterministic and user callables do not keep state across runs']
